@@ -25,6 +25,8 @@ def token(obj: object) -> str:
     qn = getattr(obj, "__qualname__", None) or getattr(obj, "__name__", None)
     if isinstance(mod, str) and isinstance(qn, str):
         return f"{type(obj).__name__}:{mod}.{qn}"
+    if isinstance(obj, (set, frozenset)):  # repr order of hashed containers depends on the hash seed
+        return f"{type(obj).__name__}=" + ",".join(sorted(_ADDR.sub("0x?", repr(x)) for x in obj))[:200]
     return f"{type(obj).__name__}={_ADDR.sub('0x?', repr(obj))[:200]}"
 
 
@@ -87,6 +89,30 @@ def main() -> None:
                     # e.g. NewType / TypeVar whose __qualname__ is not an attribute path
                     pass
         names[mn] = row
+    # one level deeper: public class-level attributes of every public class of the package
+    # (a public name whose VALUE depends on the import order is bound to a different object)
+    seen_cls: set = set()
+
+    def class_rows(cls: type) -> None:
+        if id(cls) in seen_cls or not str(getattr(cls, "__module__", "")).startswith("chartparse"):
+            return
+        seen_cls.add(id(cls))
+        row = {}
+        for k in sorted(vars(cls)):
+            if k.startswith("_"):
+                continue
+            v = vars(cls)[k]
+            v = getattr(v, "__func__", v)
+            row[k] = token(v)
+            if isinstance(v, type):
+                class_rows(v)
+        names[f"class:{cls.__module__}.{cls.__qualname__}"] = row
+
+    for mn in mods:
+        for k in sorted(vars(sys.modules[mn])):
+            v = vars(sys.modules[mn])[k]
+            if not k.startswith("_") and isinstance(v, type):
+                class_rows(v)
     identity = []
     for k in sorted(by_name):
         groups: dict = {}
